@@ -752,17 +752,18 @@ func (pp *cgPipe) evalD(cv CV, at *cgNode, depth int, refine bool) cgTri {
 			pp.inprog[cv] = true
 			res = pp.evalPhi(cv, edges, at, depth)
 			delete(pp.inprog, cv)
-		} else if vals, ok := g.loadVals(cv); ok && len(vals) > 0 {
-			// a variable kept in a cell / field: all assigned values must agree
-			first := true
-			for _, v := range vals {
-				t := pp.evalD(v, nil, depth+1, false)
-				if first {
-					res, first = t, false
-				} else if t != res {
-					res = triU
-				}
+		} else if leaves, ok := g.valuesAt(cv); ok && len(leaves) > 0 {
+			// a variable kept in a local cell / field (of a by-value state struct …): its reaching
+			// assignments — including the zero value it starts with — each under the conditions of its path
+			if pp.inprog == nil {
+				pp.inprog = map[CV]bool{}
 			}
+			if pp.inprog[cv] {
+				return triS
+			}
+			pp.inprog[cv] = true
+			res = pp.evalLeaves(leaves, depth)
+			delete(pp.inprog, cv)
 		}
 	}
 	if refine && (res == triP || res == triN) {
@@ -1392,4 +1393,79 @@ func (g *cGraph) sameValue(a, b CV) bool {
 		}
 	}
 	return true
+}
+
+// evalLeaves folds the reaching assignments of a boolean variable like the incoming edges of a phi.
+func (pp *cgPipe) evalLeaves(leaves []cgLeaf, depth int) cgTri {
+	const (
+		none = iota
+		tt
+		ff
+		mixed
+	)
+	whenP, whenN := none, none
+	add := func(slot *int, v bool) {
+		k := ff
+		if v {
+			k = tt
+		}
+		if *slot == none {
+			*slot = k
+		} else if *slot != k {
+			*slot = mixed
+		}
+	}
+	n := 0
+	for _, l := range leaves {
+		t := triF // zero value
+		if !l.Zero {
+			t = pp.evalD(l.Val, nil, depth+1, false)
+		}
+		if t == triS {
+			continue
+		}
+		pv, known, contra := pp.pFactX(l.Conds, depth)
+		if contra {
+			continue
+		}
+		n++
+		switch t {
+		case triT, triF:
+			if !known || pv {
+				add(&whenP, t == triT)
+			}
+			if !known || !pv {
+				add(&whenN, t == triT)
+			}
+		case triP, triN:
+			if !known || pv {
+				add(&whenP, t == triP)
+			}
+			if !known || !pv {
+				add(&whenN, t == triN)
+			}
+		default:
+			return triU
+		}
+	}
+	if n == 0 || whenP == mixed || whenN == mixed {
+		return triU
+	}
+	if whenP == none {
+		whenP = whenN
+	}
+	if whenN == none {
+		whenN = whenP
+	}
+	switch {
+	case whenP == tt && whenN == tt:
+		return triT
+	case whenP == ff && whenN == ff:
+		return triF
+	case whenP == tt && whenN == ff:
+		return triP
+	case whenP == ff && whenN == tt:
+		return triN
+	}
+	return triU
 }
